@@ -360,8 +360,18 @@ def check_sequential_agreement(idx, run):
                   "with the `seq` clause only", loc(dcls.module, bfunc))
 
 
+
+GUARDED = [
+    ('DynamoOMPParallelLoopTrans', 'validate'),
+    ('Dynamo0p3OMPLoopTrans', 'validate'),
+    ('Dynamo0p3ColourTrans', 'apply'),
+    ('ParallelLoopTrans', 'validate'),
+]
+
 def check(idx, run):
     run.explanation = __doc__
+    from sa.guards import check_guards
+    check_guards(idx, run, "C23.R4", GUARDED)
     check_lfric_omp_guards(idx, run)
     check_generic_validate(idx, run, "C23.R1")
     setters = check_subclass_chains(idx, run, "C23.R1")
